@@ -447,6 +447,70 @@ fn w_font_other() -> bool {
     d.get("MyKey").is_none() || d.get("Name").is_none()
 }
 
+fn import_first_page(data: Vec<u8>) -> Result<Vec<u8>, String> {
+    use pdf::file::FileOptions;
+    use pdf::build::*;
+    use pdf::object::*;
+    let src = FileOptions::uncached().load(data).map_err(|e| e.to_string())?;
+    let page = src.get_page(0).map_err(|e| e.to_string())?;
+    let mut builder = PdfBuilder::new(FileOptions::uncached());
+    let pb = {
+        let mut importer = Importer::new(src.resolver(), &mut builder.storage);
+        PageBuilder::clone_page(&page, &mut importer).map_err(|e| e.to_string())?
+    };
+    builder.build(CatalogBuilder::from_pages(vec![pb])).map_err(|e| e.to_string())
+}
+
+/// run with `-- import_cycle`: the process dies with a stack overflow (SIGABRT/SIGSEGV) when the defect is present
+fn w_import_cycle() -> bool {
+    // the page's /Foo entry points at a dictionary that points back at itself
+    let page = "<< /Type /Page /Parent 2 0 R /MediaBox [0 0 10 10] /Resources << >> /Foo 5 0 R >>";
+    let data = mkpdf(&[(1, CATALOG), (2, PAGES), (3, page), (5, "<< /Back 5 0 R >>")], "");
+    let r = import_first_page(data);
+    println!("import of a page with a self-referencing dictionary -> {:?}", r.as_ref().map(|b| b.len()));
+    r.is_err()
+}
+
+fn w_import_rcref_unwrap() -> bool {
+    // X1's /Group dictionary mentions object 8 as a plain reference; X2 uses object 8 as its (typed) /Resources
+    let page = "<< /Type /Page /Parent 2 0 R /MediaBox [0 0 10 10] /Resources << /XObject << /X1 6 0 R /X2 7 0 R >> >> /Contents 4 0 R >>";
+    let x1 = "<< /Type /XObject /Subtype /Form /BBox [0 0 1 1] /Group << /S /Transparency /Foo 8 0 R >> /Length 0 >>\nstream\n\nendstream";
+    let x2 = "<< /Type /XObject /Subtype /Form /BBox [0 0 1 1] /Resources 8 0 R /Length 0 >>\nstream\n\nendstream";
+    let content = "<< /Length 14 >>\nstream\n/X1 Do /X2 Do\n\nendstream";
+    let data = mkpdf(&[(1, CATALOG), (2, PAGES), (3, page), (4, content), (6, x1), (7, x2), (8, "<< >>")], "");
+    let r = std::panic::catch_unwind(|| import_first_page(data));
+    println!("import of a page whose XObjects share object 8 as plain and as typed reference -> {:?}", r.as_ref().map(|x| x.as_ref().map(|b| b.len())).map_err(|_| "panic"));
+    r.is_err()
+}
+
+fn w_import_colorspace() -> bool {
+    use pdf::file::FileOptions;
+    let page = "<< /Type /Page /Parent 2 0 R /MediaBox [0 0 10 10] /Resources << /ColorSpace << /CS1 [/ICCBased 6 0 R] >> /Properties << /P1 7 0 R >> >> /Contents 4 0 R >>";
+    let content = "<< /Length 36 >>\nstream\n/CS1 cs 0 0 0 sc /Tag /P1 BDC EMC\n\n\nendstream";
+    let icc = "<< /N 3 /Length 0 >>\nstream\n\nendstream";
+    let data = mkpdf(&[(1, CATALOG), (2, PAGES), (3, page), (4, content), (6, icc), (7, "<< /K 1 >>")], "");
+    let out = match import_first_page(data) { Ok(o) => o, Err(e) => { println!("import failed: {}", e); return true; } };
+    let f = FileOptions::uncached().load(out).unwrap();
+    let p = f.get_page(0).unwrap();
+    let res = p.resources().unwrap();
+    println!("imported page resources: color spaces {:?}, properties {:?} (the content uses /CS1 and /P1)", res.color_spaces.keys().collect::<Vec<_>>(), res.properties.keys().collect::<Vec<_>>());
+    res.color_spaces.is_empty() || res.properties.is_empty()
+}
+
+fn w_import_shading() -> bool {
+    use pdf::file::FileOptions;
+    let page = "<< /Type /Page /Parent 2 0 R /MediaBox [0 0 10 10] /Resources << /Shading << /Sh1 6 0 R >> >> /Contents 4 0 R >>";
+    let content = "<< /Length 8 >>\nstream\n/Sh1 sh\n\nendstream";
+    let sh = "<< /ShadingType 2 /ColorSpace /DeviceRGB /Coords [0 0 1 1] /Function << /FunctionType 2 /Domain [0 1] /N 1 >> >>";
+    let data = mkpdf(&[(1, CATALOG), (2, PAGES), (3, page), (4, content), (6, sh)], "");
+    let out = match import_first_page(data) { Ok(o) => o, Err(e) => { println!("import failed: {}", e); return false; } };
+    let text = String::from_utf8_lossy(&out);
+    let f = FileOptions::uncached().load(out.clone()).unwrap();
+    let ops = f.get_page(0).unwrap().contents.as_ref().unwrap().operations(&f.resolver()).unwrap();
+    println!("imported page: operators {:?}; output mentions /Shading: {}, /ShadingType: {}", ops.len(), text.contains("/Shading"), text.contains("ShadingType"));
+    !text.contains("ShadingType")
+}
+
 fn main() {
     let all: Vec<(&str, fn() -> bool)> = vec![
         ("lzw_predictor", w_lzw_predictor),
@@ -469,6 +533,10 @@ fn main() {
         ("length_in_objstm", w_length_in_objstm),
         ("action_goto", w_action_goto),
         ("font_other", w_font_other),
+        ("import_cycle", w_import_cycle),
+        ("import_rcref_unwrap", w_import_rcref_unwrap),
+        ("import_colorspace", w_import_colorspace),
+        ("import_shading", w_import_shading),
     ];
     let want: Vec<String> = std::env::args().skip(1).collect();
     for (n, f) in all {
